@@ -37,6 +37,11 @@ type verdict struct {
 
 // checkRoundTrip is the oracle of the round-trip part.
 func checkRoundTrip(c rtCase) (nt bool, v *verdict) {
+	defer func() {
+		if p := recover(); p != nil {
+			v = &verdict{"codec-panics", fmt.Sprintf("the codec panics on well-formed input: %v", p)}
+		}
+	}()
 	var stream []byte
 	for _, x := range c.Values {
 		stream = ref.Encode(stream, x)
@@ -208,7 +213,12 @@ type prefixCase struct {
 	BufSize int       `json:"buf_size"`
 }
 
-func checkPrefix(c prefixCase) *verdict {
+func checkPrefix(c prefixCase) (v *verdict) {
+	defer func() {
+		if p := recover(); p != nil {
+			v = &verdict{"codec-panics", fmt.Sprintf("the decoder panics on a truncated message: %v", p)}
+		}
+	}()
 	full := ref.Enc(c.Value)
 	if c.Cut <= 0 || c.Cut >= len(full) {
 		return nil
@@ -267,7 +277,12 @@ func inlineLine(c inlineCase) []byte {
 	return append(b, '\r', '\n')
 }
 
-func checkInline(c inlineCase) *verdict {
+func checkInline(c inlineCase) (v *verdict) {
+	defer func() {
+		if p := recover(); p != nil {
+			v = &verdict{"codec-panics", fmt.Sprintf("the decoder panics on an inline command: %v", p)}
+		}
+	}()
 	line := inlineLine(c)
 	arr := make([]ref.Value, len(c.Tokens))
 	for i, tk := range c.Tokens {
